@@ -78,6 +78,39 @@ def describe(desc):
     return f
 
 
+_UNI_RANGES = [(0x20, 0x7e), (0xa1, 0xff), (0x100, 0x17f), (0x370, 0x3ff), (0x400, 0x45f), (0x2000, 0x206f), (0xff10, 0xff5a), (0x300, 0x36f),
+               (0x1e00, 0x1eff), (0xfb00, 0xfb06), (0x2100, 0x214f), (0x5d0, 0x5ea), (0x4e00, 0x4e20), (0x1c4, 0x1cc), (0x1f0, 0x1f3)]
+
+
+def unicode_fuzz(item):
+    """Descriptions over many scripts (Latin with diacritics, Greek, Cyrillic, Hebrew, CJK, full-width forms, combining marks, ligatures,
+    letter-like symbols, general punctuation): whatever a bank writes, the suggested rule loads and matches it."""
+    seed, count = item
+    from tally.commands.discover import suggest_pattern, suggest_merchant_name, suggest_merchants_rule
+    rnd = random.Random(seed)
+    n, fails = 0, []
+    for _ in range(count):
+        words = []
+        for _w in range(rnd.choice([1, 2, 3, 4])):
+            words.append(''.join(chr(rnd.randint(*rnd.choice(_UNI_RANGES))) for _c in range(rnd.choice([1, 2, 3, 5, 8]))))
+        desc = ' '.join(words).strip()
+        if not desc or '\n' in desc or '\r' in desc:
+            continue
+        n += 1
+        try:
+            rule = suggest_merchants_rule(suggest_merchant_name(desc), suggest_pattern(desc))
+        except Exception as e:
+            fails.append(({'site': 'suggest', 'clause': 'exception', 'features': ['unicode']}, {'description': desc, 'error': repr(e)},
+                          'suggesting a rule for %r raised %r' % (desc, e)))
+            continue
+        clause, detail = check_suggestion(desc, rule)
+        if clause:
+            fails.append(({'site': 'suggest_merchants_rule', 'clause': clause, 'features': ['unicode']},
+                          {'description': desc, 'codepoints': ['U+%04X' % ord(c) for c in desc], 'suggested_rule': rule, 'detail': detail},
+                          'the rule suggested for %r %s: %s' % (desc, clause.replace('-', ' '), rule.replace('\n', ' | '))))
+    return n, fails[:20]
+
+
 def inprocess(item):
     descs_shapes, seed = item
     from tally.commands.discover import suggest_pattern, suggest_merchant_name, suggest_merchants_rule
@@ -236,6 +269,12 @@ def run(ck):
             ck.violation(sig, case, what)
     for s in shapes:
         ck.case(s, nontrivial=len(s) >= 2, n=0)
+    for n, fails in par.pmap(unicode_fuzz, [(ck.seed * 101 + k, 500 if quick else 8000) for k in range(16)]):
+        ck.case(n=n)
+        ck.trace(n)
+        ck.extra['unicode_descriptions'] = ck.extra.get('unicode_descriptions', 0) + n
+        for sig, case, what in fails:
+            ck.violation(sig, case, what)
     # the command: discover -> append -> rerun
     rnd = random.Random(ck.seed)
     batches = []
